@@ -84,7 +84,7 @@ def run(prog, rep):
                       f"node shape `{key}` (no AX inside) gets a value that depends on `{steady[1]}`: {sem.short(r['term'], 160)}")
     rep.floor("C18-O3", 10)
     # O2
-    for s in en.summ.sites:
+    for s in en.summ.all_sites():          # (recursive calls made by inlined helpers of the layer included)
         if s.kind == "call" and s.is_call_to("eval_node"):
             rep.check(len(s.args) >= 4 and s.args[3] == steady, "C18-O2", f"eval_node/rec@{s.ordinal}", s.where(),
                       "steady_states passed verbatim", f"recursive call passes {sem.short(s.args[3], 80) if len(s.args) > 3 else None} as steady states")
